@@ -8,6 +8,8 @@ Provides security-validated file operations used by both CLI and MCP tools:
 import hashlib
 import os
 import tempfile
+from collections.abc import Iterator
+from contextlib import contextmanager
 from pathlib import Path
 from typing import Any
 
@@ -81,6 +83,44 @@ def validate_octave_path(target_path: str) -> tuple[bool, str | None]:
             return False, f"Invalid file extension. Allowed: {allowed}"
 
     return True, None
+
+
+@contextmanager
+def exclusive_directory_lock(directory: str | Path) -> Iterator[None]:
+    """Serialise the final check-and-replace step of atomic writes to one directory.
+
+    Holds an advisory exclusive ``flock`` on the directory itself while the
+    caller re-checks ``base_hash`` and runs ``os.replace``, so that no other
+    cooperating writer (another octave process) can install new content
+    between the two.  Without it two writers holding the same ``base_hash``
+    can both pass the re-check and both succeed (lost update).
+
+    The kernel releases the lock when the descriptor is closed or the process
+    dies, so a crashed writer cannot wedge the directory.  Where ``fcntl`` or
+    directory descriptors are unavailable (Windows, some network file systems)
+    the block runs unlocked, which is the previous behaviour.
+    """
+    fd: int | None = None
+    try:
+        import fcntl
+
+        fd = os.open(directory, os.O_RDONLY)
+        fcntl.flock(fd, fcntl.LOCK_EX)
+    except (ImportError, OSError):
+        if fd is not None:
+            try:
+                os.close(fd)
+            except OSError:
+                pass
+            fd = None
+    try:
+        yield
+    finally:
+        if fd is not None:
+            try:
+                os.close(fd)
+            except OSError:
+                pass
 
 
 def compute_hash(content: str) -> str:
@@ -179,21 +219,24 @@ def atomic_write_octave(
                 f.flush()
                 os.fsync(f.fileno())
 
-            # TOCTOU protection: recheck base_hash before replace
-            if base_hash and path_obj.exists():
-                with open(target_path, encoding="utf-8") as verify_f:
-                    verify_content = verify_f.read()
-                verify_hash = compute_hash(verify_content)
-                if verify_hash != base_hash:
-                    os.unlink(temp_path)
-                    return {
-                        "status": "error",
-                        "error": f"Hash mismatch before write (expected {base_hash[:8]}..., got {verify_hash[:8]}...)",
-                        "path": target_path,
-                    }
+            # Re-check and replace under a directory lock so that no other
+            # writer can install between the two (compare-and-swap).
+            with exclusive_directory_lock(path_obj.parent):
+                # TOCTOU protection: recheck base_hash before replace
+                if base_hash and path_obj.exists():
+                    with open(target_path, encoding="utf-8") as verify_f:
+                        verify_content = verify_f.read()
+                    verify_hash = compute_hash(verify_content)
+                    if verify_hash != base_hash:
+                        os.unlink(temp_path)
+                        return {
+                            "status": "error",
+                            "error": f"Hash mismatch before write (expected {base_hash[:8]}..., got {verify_hash[:8]}...)",
+                            "path": target_path,
+                        }
 
-            # Atomic replace
-            os.replace(temp_path, target_path)
+                # Atomic replace
+                os.replace(temp_path, target_path)
 
         except Exception:
             # Best-effort cleanup that does not depend on a successful stat():
